@@ -43,22 +43,30 @@ pub fn check(a: &Analysis, aux: &mut Aux, t: &mut Tally) -> Vec<Violation> {
             }
         }
     }
-    // stable partition: repeated payloads, then TCP data (state-dependent), then the rest
-    order.sort_by_key(|i| {
-        if repeat[*i] {
-            return 0;
+    // stable partition: data segments that continue a connection (their answer depends on the
+    // connection's earlier segments, i.e. on state the responder must have kept), repeated payloads,
+    // other TCP data, then the rest
+    let class_of = |i: usize| -> u8 {
+        match &a.steps[i].tcp {
+            Some(ti) if ti.class == TcpClass::Data && ti.accepted_before > 0 && !repeat[i] => 0,
+            _ if repeat[i] => 1,
+            Some(ti) if ti.class == TcpClass::Data => 2,
+            Some(_) => 3,
+            None => 4,
         }
-        match &a.steps[*i].tcp {
-            Some(ti) if ti.class == TcpClass::Data => 1,
-            Some(_) => 2,
-            None => 3,
+    };
+    order.sort_by_key(|i| class_of(*i));
+    // at most a third of the budget each for the first two classes
+    let third = (aux.samples / 3).max(1);
+    for cl in [0u8, 1] {
+        let start = order.iter().position(|i| class_of(*i) == cl);
+        if let Some(st) = start {
+            let cnt = order[st..].iter().take_while(|i| class_of(**i) == cl).count();
+            if cnt > third {
+                let extra: Vec<usize> = order.drain(st + third..st + cnt).collect();
+                order.extend(extra);
+            }
         }
-    });
-    // at most half of the budget goes to repeated payloads
-    let nrep = order.iter().take_while(|i| repeat[**i]).count();
-    if nrep > aux.samples / 2 {
-        let extra: Vec<usize> = order.drain(aux.samples / 2..nrep).collect();
-        order.extend(extra);
     }
     let mut done = 0;
     for si in order {
